@@ -11,6 +11,9 @@
     * `InfrastructureInfo._validate`       interface.py:236-278         (station-count consistency)
     * `InfrastructureInfo.get_station_index`, `Interface.allowable_pilot_signals`,
       `max_pilot_signal`, `min_pilot_signal`                            interface.py:232-234, 485-539
+    * `ChargingNetwork._to_dict` / `_from_dict`  charging_network.py:547-648  (save / resume: `_EVSEs`
+                                           re-inserted entry by entry, the cached containers restored
+                                           verbatim — `CNet`, `Saved`, second half of this file)
 
   The cache is recomputed from `_EVSEs` by every mutator of the network (register / add / remove /
   update constraint), so in the model it is a FUNCTION of the registered stations (`infoStore`); the
